@@ -19,6 +19,7 @@ func buildProperties() []Property {
 			Decides:    "agreement of the writer's and the reader's tables and exactness of the number paths: every escape the writer can emit is accepted by the lexer class, matched by the reader's pattern and mapped back to the same character; quote, backslash and control characters always trigger escaping; floats are written with the shortest round-tripping representation and read by one correctly rounding conversion; write_term/3 and read_term/3 use the VM's one operator table. The write options are extended copy-on-write: a map reached through an options struct received by value is never updated in place. Integer and Float agree on blanks and parentheses next to operators (zero and negative zero included); a character is written verbatim inside quotes only if the lexer's own predicate accepts it; the functor of functional notation is written without an operator table; only the token `_` is anonymous; the reader produces no infinite Float.",
 			NotDecided: "bracketing/spacing correctness for operator contexts - the heart of the round trip - which depends on pairs (context operator, operand) over all tables.",
 			Rules: []RuleDef{
+				{"R-INT-LITERAL-SIGNED", 1, ruleIntLiteralSigned},
 				{"R-FUNCTOR-NOT-OPERAND", 1, ruleFunctorNotOperand},
 				{"R-QUOTE-AGREES", 2, ruleQuoteAgrees},
 				{"R-NUMBER-WRITE-SIBLINGS", 6, ruleNumberWriteSiblings},
@@ -83,6 +84,7 @@ func buildProperties() []Property {
 			Decides:    "whole-program discipline for package-level state, recomputed from the source on every run: every run-time write to a package-level variable is under that variable's mutex or atomic; a variable written after init is read only under the lock or atomically; package-level maps are only read after init; no store can reach an object shared through a package-level variable (default write options, singleton promises, root environment). Hence the only state shared between two interpreters is guarded (no data race on library state for any schedule) and nothing one interpreter changes is reachable from another.",
 			NotDecided: "equality of answers with a sequential run; races inside host-provided readers/writers; the VM fields themselves (one goroutine per interpreter is assumed by the property).",
 			Rules: []RuleDef{
+				{"R-ATOMIC-RMW", 1, ruleAtomicRMW},
 				{"R-GLOBAL-WRITES", 10, only("R-GLOBAL-WRITES", ruleGlobalState)},
 				{"R-GLOBAL-READS", 3, only("R-GLOBAL-READS", ruleGlobalState)},
 				{"R-GLOBAL-TABLES", 4, only("R-GLOBAL-TABLES", ruleGlobalState)},
@@ -96,6 +98,7 @@ func buildProperties() []Property {
 			Decides:    "typestate of the iterator: no send on the request channel after Close, Close closes it at most once and reports the repeat, no blocking send once the answer channel was found closed (Next after exhaustion returns false instead of blocking), every blocking receive of the search goroutine is released by Close and the answer channel is closed by a deferred close.",
 			NotDecided: "exactly-once delivery of answers, interleaving of two iterations, promptness, goroutine counts - histories and schedules.",
 			Rules: []RuleDef{
+				{"R-SCAN-OVERWRITES", 8, ruleScanOverwrites},
 				{"R-CLOSE-ONCE", 2, only("R-CLOSE-ONCE", ruleSolutionsTypestate)},
 				{"R-NO-SEND-AFTER-CLOSE", 1, only("R-NO-SEND-AFTER-CLOSE", ruleSolutionsTypestate)},
 				{"R-NO-SEND-WHEN-EXHAUSTED", 1, only("R-NO-SEND-WHEN-EXHAUSTED", ruleSolutionsTypestate)},
@@ -108,6 +111,8 @@ func buildProperties() []Property {
 			Decides:    "every narrowing conversion of an answer value in Scan is guarded by an exactness/range test with an error edge (sizes from the analysed build, thorough tier repeats with 32-bit int); placeholder arguments never flow into a reader, lexer or parser constructor (they enter the grammar only as finished terms); a term is returned only when the argument queue is empty and the queue is indexed only when non-empty. The destination of each element conversion into a slice is computed per element inside the loop. An unsigned 64-bit Go integer is converted to Integer only under a bound; left-over placeholder arguments are reported by Term outside text mode and by the loader at the end of a text; reflect.Value.Interface is applied to struct fields only when they are exported.",
 			NotDecided: "that termOf(v) equals the literal denoting v under every double_quotes setting.",
 			Rules: []RuleDef{
+				{"R-PLACEHOLDER-FLAG", 1, rulePlaceholderFlag},
+				{"R-SCAN-OVERWRITES", 8, ruleScanOverwrites},
 				{"R-REFLECT-EXPORTED", 2, ruleReflectExported},
 				{"R-INT-CONVERT", 1, ruleIntConvert},
 				{"R-SCAN-FRESH-DEST", 1, ruleScanFreshDest},
@@ -122,6 +127,7 @@ func buildProperties() []Property {
 			Decides:    "no delayed continuation addresses the live clause list by a position computed at call time (the mechanism behind the wrong deletions and the slice-bounds panic); calls iterate clause copies captured eagerly; the live database is written only from code statically reachable from asserta/assertz/retract/abolish/consult, the loader and the registration API. The assert built-ins compile a renamed copy of the given clause.",
 			NotDecided: "that the final database equals the sequential reference model for every history; front/end insertion order.",
 			Rules: []RuleDef{
+				{"R-BOOTSTRAP-RETRACTALL", 1, ruleBootstrapRetractall},
 				{"R-ASSERT-COPY", 1, ruleAssertCopy},
 				{"R-SNAPSHOT", 2, func(c *Ctx, r *Report) { ruleSnapshot(c, r); ruleSnapshotPointers(c, r) }},
 				{"R-SLICE-OWNER", 4, ruleSliceOwner},
@@ -134,6 +140,7 @@ func buildProperties() []Property {
 			Decides:    "the term kept for clause/2 and retract/1 is a closed copy (bindings applied) on every compile path; the operand types the compiler emits are the types the interpreter asserts; every emitted structure opcode is closed by exactly one pop; head and body argument compilers treat each term representation with opcodes of the same kind; unchecked assertions on struct fields hold for every value stored there; every opcode has a handler; copies keep variable sharing. The compiler and the database built-ins inspect a term's shape only after resolution and pair functor-name tests with arity. The assert built-ins compile a renamed copy of the given clause and the loader empties the parser's variable table before each clause.",
 			NotDecided: "that the bytecode denotes the source term (argument order, variable numbering) for every clause - a translation-validation question.",
 			Rules: []RuleDef{
+				{"R-PARTIAL-COUNT-EMIT", 1, rulePartialCountEmit},
 				{"R-VARS-PER-CLAUSE", 1, ruleVarsPerClause},
 				{"R-ASSERT-COPY", 1, ruleAssertCopy},
 				{"R-FUNCTOR-ARITY", 35, ruleFunctorArity},
@@ -153,9 +160,10 @@ func buildProperties() []Property {
 			Decides:    "op/3 validates everything before it mutates anything (no error exit is reachable after a mutation); the operator table is written only from code reachable from op/3 and the parser/VM initialisers; write_term/3 and every term-reading parser use the VM's one table. Every iteration of the commit loop of op/3 reaches define (a skip is allowed only across a whole-operator comparison); op/3 inspects its arguments after resolution. The decision about the operator ',' does not depend on the requested priority or specifier.",
 			NotDecided: "that current_op/3 enumerates exactly the ISO table after every history (class exclusion, priority-0 removal are value-level).",
 			Rules: []RuleDef{
+				{"R-OPS-CLASS-LOCAL", 1, ruleOpsClassLocal},
 				{"R-COMMA-FIXED", 1, ruleCommaFixed},
 				{"R-RESOLVE-ALL", 8, ruleResolveAll("C18")},
-				{"R-OP-ATOMIC", 2, ruleOpAtomic},
+				{"R-OP-ATOMIC", 1, ruleOpAtomic},
 				{"R-OP-DEFINES-ALL", 1, ruleOpDefinesAll},
 				{"R-OPS-WRITERS", 2, ruleOpsWriters},
 				{"R-OPS-SOURCE", 4, ruleOpsSource},
@@ -166,6 +174,7 @@ func buildProperties() []Property {
 			Decides:    "every write of the loader to the live database is dominated by the success edges of both staging steps and the commit loop has no early return; nothing statically reachable from the staging steps (short of a nested load) writes the live database. Every iteration of the commit loop writes the predicate to the database; ensure_loaded/1 un-marks the file on every error exit. The parser says \"no more clauses\" only when no part of a token has been accepted.",
 			NotDecided: "source order, multifile/discontiguous semantics, effects of directives executed during a load that later fails (by design they run at once).",
 			Rules: []RuleDef{
+				{"R-DISCONTIGUOUS-INDEP", 1, ruleDiscontiguousIndep},
 				{"R-MORE-CLEAN-END", 1, ruleMoreCleanEnd},
 				{"R-COMMIT-AFTER-SUCCESS", 3, ruleCommitAfterSuccess},
 				{"R-STAGING-LOCAL", 1, ruleStagingLocal},
@@ -179,6 +188,7 @@ func buildProperties() []Property {
 			Decides:    "each clause activation runs on a persistent environment (no binding leaks between activations, sibling branches or successive answers: every Env store targets a private node); the interpreter threads its variable frame, continuation and cut barrier unchanged through its own re-entries; every opcode has a handler. A functor-name comparison is always paired with an examination of the same value's arity.",
 			NotDecided: "that the answer sequence equals the reference SLD sequence (clause order, goal order, completeness, termination reporting) - a statement about the dynamic shape of the promise stack for every program.",
 			Rules: []RuleDef{
+				{"R-ANON-VAR", 2, ruleAnonVar},
 				{"R-FUNCTOR-ARITY", 35, ruleFunctorArity},
 				{"R-ENV-IMMUT", 9, ruleEnvImmut},
 				{"R-PARAM-THREAD", 5, ruleParamThread(threadRowsFor("exec"))},
@@ -194,6 +204,7 @@ func buildProperties() []Property {
 			Decides:    "cut-barrier discipline: the barrier field is written only at construction and cleared only by the trampoline; a cut is tagged with the activation's own barrier; each clause alternative gets the promise holding this call's alternatives as barrier; no *Promise can travel into a callee (procedure interface, Cont, VM fields), so every goal entered through call/N, \\+, findall, catch gets a fresh barrier. Control constructs inspect the shape of a goal only after resolving it and their closures write no captured Go variable (no state that backtracking cannot restore). The sequence iterator looks at the left operand of a conjunction, so a conjunction nested on the left is not compiled as a call of ','/2 (in which a cut would be local).",
 			NotDecided: "that popUntil prunes exactly the right frames for every dynamic stack; the derived semantics of ->, once, \\+ in bootstrap.pl.",
 			Rules: []RuleDef{
+				{"R-CUT-TARGET-OWN", 2, ruleCutTargetOwn},
 				{"R-SEQ-FLATTEN", 1, ruleSeqFlatten},
 				{"R-CONTROL-STATELESS", 12, ruleControlStateless},
 				{"R-RESOLVE-ALL", 10, ruleResolveAll("C03")},
@@ -210,6 +221,7 @@ func buildProperties() []Property {
 			Decides:    "the ball is instantiated and copied at throw time (throw/1 raises only Exceptions whose term is renamedCopy(ball, env) of its own arguments); the catcher is unified and Recovery called under the environment catch/3 was called with, so all later bindings are undone (with R-ENV-IMMUT); variable sharing inside the ball is kept. The closures of catch/3 and throw/1 write no captured Go variable. Inside the protected thunk of catch/3 the continuation is only invoked under a nested marker frame whose handler declines every error and tells the handler of catch/3 to let that error pass: a catch/3 whose goal has exited does not intercept later errors. Unwinding starts only from an error found in a popped promise (all ancestors, the parent included, are on the stack).",
 			NotDecided: "which catch frame is selected - in particular that a catch/3 whose Goal has exited no longer intercepts (observation O1: it does on this tree; a property of the runtime promise stack).",
 			Rules: []RuleDef{
+				{"R-CATCH-DECLINES", 2, ruleCatchDeclines},
 				{"R-UNWIND-POPPED", 1, ruleUnwindPopped},
 				{"R-CATCH-SCOPE", 3, ruleCatchScope},
 				{"R-CONTROL-STATELESS", 12, ruleControlStateless},
@@ -225,6 +237,7 @@ func buildProperties() []Property {
 			Decides:    "every collected instance is a renamed copy of the template taken under that solution's environment; after the nested search findall/3 and \\+/1 continue with their own outer environment (no goal binding is left behind, with R-ENV-IMMUT); copies keep variable sharing. The whole collection machinery inspects terms only after resolution. Every witness group of the grouping loop becomes an alternative; the variant test keeps the variable correspondence in both directions.",
 			NotDecided: "free-variable computation, witness variance, partition into groups, solution order.",
 			Rules: []RuleDef{
+				{"R-VARIANT-DESCENDS", 1, ruleVariantDescends},
 				{"R-VARIANT-BIJECTIVE", 1, ruleVariantBijective},
 				{"R-GROUP-ALL", 1, ruleGroupAll},
 				{"R-RESOLVE-ALL", 18, ruleResolveAll("C11")},
@@ -240,6 +253,7 @@ func buildProperties() []Property {
 			Decides:    "every nested trampoline runs under the caller's context (no fresh Background context around a goal, no captured context inside a thunk); every cycle of the trampoline passes through a non-blocking poll of ctx.Done() and cancellation is returned as ctx.Err(). ensure_loaded/1 un-marks the file on every error exit after marking it (a cancelled load can be repeated). A function that observes ctx.Done() passes through ctx.Err() on every path to an exit.",
 			NotDecided: "the delay bound (Go-level loops between polls are bounded by term size, not by a constant), and that the interpreter stays usable afterwards.",
 			Rules: []RuleDef{
+				{"R-FORCE-ERR-PROPAGATED", 6, ruleForceErrPropagated},
 				{"R-DONE-REPORTS", 1, ruleDoneReports},
 				{"R-FORCE-CTX", 8, ruleForceCtx},
 				{"R-POLL-IN-LOOP", 3, rulePollInLoop},
@@ -251,6 +265,8 @@ func buildProperties() []Property {
 			Decides:    "a failed unification leaves no binding (environments are persistent: every Env store targets a node private to the writer); unify_with_occurs_check applies the check at every depth and before every bind; atomic terms are compared with a total non-panicking equality; every slice/string encoding of a list reports './2 through the Compound interface. The occurs check recurses into the referent of a bound variable and into every argument; the dynamic type of a term is inspected only after resolution; functor-name comparisons are paired with arity. unify never re-enters itself through a wrapper that fixes the occurs-check flag; the tail of a partial list replaces only the cdr; every one-character name, U+FFFD included, has the rune as its only representation.",
 			NotDecided: "most-generality, symmetry, idempotence, and that Arg(n) of the four list encodings denotes the same abstract argument (algebraic laws over all term pairs).",
 			Rules: []RuleDef{
+				{"R-PARTIAL-SPINE", 1, rulePartialSpine},
+				{"R-UNIFY-ABSTRACT", 1, ruleUnifyAbstract},
 				{"R-ATOM-CANONICAL", 1, ruleAtomCanonical},
 				{"R-TAIL-CDR", 1, ruleTailCdr},
 				{"R-FUNCTOR-ARITY", 35, ruleFunctorArity},
@@ -285,6 +301,7 @@ func buildProperties() []Property {
 			Decides:    "panic classes visible in code shape (zero divisor, negative shift, uncomparable interface comparison, missing table row) Every computed index into a fixed-size array is proven in range (enumeration, range loop, branch facts, or ring cursor by interval interpretation). The parser's next() moves its token window by one slot on every return path, failures included, so the unconditional backup() of its callers is symmetric (no endless re-parsing at the end of the input). A memoising mark of the loader precedes every call that runs goals, and a file-driven recursion (include/1) records and tests what is being loaded.",
 			NotDecided: "termination on arbitrary text, slice bounds in general, memory exhaustion",
 			Rules: []RuleDef{
+				{"R-PARTIAL-SPINE", 1, rulePartialSpine},
 				{"R-INCLUDE-GUARD", 1, ruleIncludeGuard},
 				{"R-MARK-ROLLBACK", 2, ruleMarkRollback},
 				{"R-NEXT-ADVANCES", 2, ruleNextAdvances},
